@@ -228,12 +228,28 @@ pub fn run_batch<S: Scenario>(s: &S, cfg: &BatchCfg) -> BatchOut {
                     let ch = case_hash(&case);
                     let audit = cfg.audit_every > 0 && i % cfg.audit_every == 0;
                     let mut div = None;
+                    let mut transient = false;
                     if audit {
                         div = exec_twice_same(s, &case, &r.decisions, &r);
+                        if div.is_some() && !s.nondeterminism_is_violation() {
+                            // a divergence must be reproducible to count: two more replays of the
+                            // same decisions. If both agree with the first execution, the one
+                            // divergent execution was a transient of the harness (recorded in the
+                            // evidence, not an error); otherwise the divergence stands.
+                            let again1 = exec_twice_same(s, &case, &r.decisions, &r);
+                            let again2 = exec_twice_same(s, &case, &r.decisions, &r);
+                            if again1.is_none() && again2.is_none() {
+                                transient = true;
+                                div = None;
+                            }
+                        }
                     }
                     let mut g = agg.lock().unwrap();
                     if audit {
                         g.audited += 1;
+                    }
+                    if transient {
+                        g.stats.inc("audit_transient_divergence_not_reproduced");
                     }
                     let mut r = r;
                     if let Some(d) = div {
